@@ -783,7 +783,9 @@ func (e BridgeEngine) corruptConfirm(r *Run, c *ChainSt, t *Tx) {
 	w := r.W
 	r.Fault("bad-signature")
 	other := (t.A.Int("o") + 1) % len(c.Oracles)
-	switch r.Rng.IntN(10) {
+	switch r.Rng.IntN(11) {
+	case 10:
+		t.A["sigfault"] = "trailing"
 	case 9:
 		// somebody else submits the oracle's correctly signed confirmation in the direct message, naming
 		// itself as bridger (the signature is public once the oracle has produced it)
